@@ -539,6 +539,13 @@ def run(tier):
                        'how': './harness/check C06 --replay <this file>'})
 
     # text streams
+    seen_ids = set(reported_ids)
+    _kf = rep.known_finding
+
+    def known_once(fid, what):
+        if fid not in seen_ids:
+            seen_ids.add(fid)
+            _kf(fid, what)
     for j, r in text_hits[:40]:
         meta = text_meta[j]
         fid = meta[1] if meta[0] == 'corpus' else None
@@ -549,10 +556,10 @@ def run(tier):
             sf = sorted({t for t in tg if t in TAG2ID})
             if sf and all(TAG2ID[t] in known for t in sf):
                 for t in sf:
-                    rep.known_finding(TAG2ID[t], known[TAG2ID[t]]['what'] + f' (also hit with implicit path factoring: `{r["q"]}`)')
+                    known_once(TAG2ID[t], known[TAG2ID[t]]['what'] + f' (also hit with implicit path factoring: `{r["q"]}`)')
                 continue
         if fid and fid in known:
-            rep.known_finding(fid, known[fid]['what'] + f' (replayed: `{r["q"]}`)')
+            known_once(fid, known[fid]['what'] + f' (replayed: `{r["q"]}`)')
             continue
         rep.violation('monitor failed on the real compiler (exploration stream, implicit path factoring / corpus): '
                       f'{sorted(set(m.split(":")[0] for m in r["mon"]))}'
